@@ -127,6 +127,12 @@ def grids(draw, nmin=4, nmax=12, umin=1.0, umax=5.0, max_degree=5):
     n = len(out)
     degree = draw(st.integers(1, min(n - 1, max_degree)))
     is_log = draw(st.booleans())
+    # keep the interpolation well conditioned (Lebesgue constant <= 50): e.g. linear-mode degree-5 polynomials on
+    # log-spaced nodes reach 1e8 and make every comparison meaningless; lower the degree by construction
+    from . import basis
+
+    while degree > 1 and basis.Basis(out, degree, is_log).lebesgue() > 50.0:
+        degree -= 1
     return {"xgrid": out, "degree": degree, "log": is_log, "family": family}
 
 
